@@ -3,7 +3,7 @@
 CFG = {
     'sub': 'c15',
     'gens': [],
-    'coq_files': ['Model_C15.v', 'Proofs_C15.v', 'Props_C15.v', 'Run_C15.v'],
+    'coq_files': ['Model_C15.v', 'Proofs_C15.v', 'Proofs_C15b.v', 'Props_C15.v', 'Run_C15.v'],
     'props': 'Props_C15.v', 'run': 'Run_C15.v',
     'widen_runs': 3,
     'rule': 'direct: seeded random calls of cluster.VerifDistributePoints (= distributePoints): 0..6 existing shards whose size and '
